@@ -92,11 +92,12 @@ class Rotate(Domain):
             The point around which the rotation occurs, can also be a function.
             Default is the origin.
         """
-        assert domain.dim <= 3, (
+        # (a boundary has dim = space.dim - 1 but is rotated in its space)
+        assert domain.space.dim <= 3, (
             "Rotation matrix for dimension > 3 is not known, please create it yourself"
             + " and use the basic constructor."
         )
-        if domain.dim == 2:
+        if domain.space.dim == 2:
             assert len(angles) == 1, "In 2D one rotation angle is needed!"
             rotation_matrix = RotationMatrix2D(angles[0])
         else:
